@@ -436,7 +436,7 @@ pub fn strategy(long: bool) -> impl Strategy<Value = Case> {
     prop::sample::select(if long { vec![Codec::LenU16, Codec::LenU16, Codec::Lines, Codec::Lines, Codec::Bytes, Codec::LenU8] } else { vec![Codec::LenU8, Codec::LenU16, Codec::Lines, Codec::Bytes] })
         .prop_flat_map(move |codec| {
             let stream = if long { stream_for(codec, true) } else { prop_oneof![3 => stream_for(codec, false), 1 => raw_stream().boxed()].boxed() };
-            (Just(codec), stream, script(long), prop::option::weighted(0.35, (any::<u16>(), 0u8..4)), prop::collection::vec((1u16..14, 0u8..4), 0..3), prop_oneof![3 => Just(0u16), 1 => 1u16..40, 1 => prop::sample::select(vec![1023u16, 1024, 8191, 8192, 8193, 20000])])
+            (Just(codec), stream, script(long), prop::option::weighted(0.35, (any::<u16>(), 0u8..6)), prop::collection::vec((1u16..14, 0u8..4), 0..3), prop_oneof![3 => Just(0u16), 1 => 1u16..40, 1 => prop::sample::select(vec![1023u16, 1024, 8191, 8192, 8193, 20000])])
         })
         .prop_map(|(codec, stream, script, e, between, preload)| {
             let err_at = e.map(|(at, k)| (vcore::pick(at, stream.len() + 1), k));
